@@ -11,9 +11,10 @@ SYN = ['der', 'oer', 'uper', 'xer', 'cxer']
 families_for = base.families_for
 
 
-def make_worker(want_c01, want_c02, two, opts=(), skip_syntax=()):
+def make_worker(want_c01, want_c02, two, opts=(), skip_syntax=(), extra_sig=None):
     def worker(b):
         o = base.Out()
+        o.extra_sig = dict(extra_sig or {})
         lines, meta = [], []
         for c in b.cases:
             big = (c.family == 'S6' and c.label.startswith('long/'))
@@ -107,9 +108,9 @@ def make_worker(want_c01, want_c02, two, opts=(), skip_syntax=()):
     return worker
 
 
-def sweep(chk, args, want_c01, want_c02, opts=(), flavour='asan', defines=(), workname=None, cases=None, two=None, skip_syntax=(), fams=None):
+def sweep(chk, args, want_c01, want_c02, opts=(), flavour='asan', defines=(), workname=None, cases=None, two=None, skip_syntax=(), fams=None, extra_sig=None):
     tier = args.tier
     fams = fams or families_for(tier, getattr(args, 'families', None))
     two = (tier == 'thorough') if two is None else two
-    return base.run_sweep(chk, args, make_worker(want_c01, want_c02, two, opts, skip_syntax), cases=cases, fams=fams, flavour=flavour,
+    return base.run_sweep(chk, args, make_worker(want_c01, want_c02, two, opts, skip_syntax, extra_sig), cases=cases, fams=fams, flavour=flavour,
                           opts=opts, defines=defines, workname=workname)
